@@ -935,6 +935,15 @@ class Engine:
         if ren and name in ren:
             name, extra = ren[name]
             args = list(args) + list(extra)
+        flat = []
+        def fl(v):
+            if isinstance(v, Rec):
+                for fn in sorted(v.f): fl(v.f[fn])
+            elif isinstance(v, Seq): flat.append(v.arr); flat.append(z3.ToReal(v.n) if z3.is_int(v.n) else v.n)
+            else: flat.append(v)
+        if any(isinstance(v, Rec) for v in args):
+            for v in args: fl(v)
+            args = flat
         a = [self.to_real(v) if not isinstance(v, Seq) else v.arr for v in args]
         sorts = [v.sort() for v in a] + [z3.RealSort()]
         return self.uf(name, *sorts)(*a)
@@ -1218,18 +1227,19 @@ class Engine:
             cs.env['result'] = res
         if sp.options.get('pure') and res is not None and not isinstance(res, (Seq, Rec)):
             self.check_pure(f)
-            sc = []
+            sc = []; strtags = []
             for (pn, pt, br) in f.params:
                 v = env[pn]
                 if isinstance(v, Fun): sc.append(z3.RealVal(abs(hash(v.uf)) % 1000003) if False else None); continue
-                if isinstance(v, (Seq, Rec, Str)): raise E2Error('pure summary of %s: non-scalar parameter %s' % (f.qual, pn))
+                if isinstance(v, Str): strtags.append('s[%s]' % (v.v if v.v is not None else v.sym)); sc.append(None); continue
+                if isinstance(v, (Seq, Rec)): raise E2Error('pure summary of %s: non-scalar parameter %s' % (f.qual, pn))
                 sc.append(self.to_real(v) if not z3.is_bool(v) else z3.If(v, z3.RealVal(1), z3.RealVal(0)))
             funs = [env[pn].uf for (pn, pt, br) in f.params if isinstance(env[pn], Fun)]
             for (pn, pt, br) in f.params:
                 if isinstance(env[pn], Fun) and getattr(env[pn], 'extra', None): sc += list(env[pn].extra)
             cbn = '_'.join(((self.cur.callbacks.get(pn, {}) or {}).get('uf') or u) for u, pn in zip(funs, [p[0] for p in f.params if isinstance(env[p[0]], Fun)])) if False else '_'.join(funs)
             args = [a for a in sc if a is not None]
-            u = self.uf('pure_%s_%s' % (f.name, cbn), *([z3.RealSort()] * len(args) + [res.sort()]))
+            u = self.uf('pure_%s_%s' % (f.name, cbn + ''.join(strtags)), *([z3.RealSort()] * len(args) + [res.sort()]))
             cs.assume(res == u(*args))
         n_pc0 = len(cs.pc)
         for cl in sp.ensures:
@@ -2017,6 +2027,12 @@ class Verifier(Engine):
         for mode in modes:
             self.mode = mode; self.cur = fs; self.curf = f
             qn = f.qual + ('~' + self.view if self.view else '')
+            if key.startswith('lambda:'):
+                encl, _, path_ = key[7:].rpartition(':')
+                try:
+                    import hashlib as _hl
+                    qn = 'lambda[%s#%s:%s]' % (self.func(encl).qual, _hl.sha1(encl.encode()).hexdigest()[:4], path_) + ('~' + self.view if self.view else '')
+                except Exception: pass
             self.prefix = 'E2:%s:%s:' % (qn, mode) if len(modes) > 1 else 'E2:%s:' % qn
             self.vartypes = {}; self.loops_seen = set(); self.exit_sites = 0
             st = State()
@@ -2031,7 +2047,7 @@ class Verifier(Engine):
                 st.env[pn] = self.fresh_val(pt, pn, st)
                 self.vartypes[pn] = pt
             for ct, cn in fs.captures:
-                tt = {'real': 'double', 'seq': 'seq<double>', 'str': 'string', 'string': 'string'}.get(ct, ct)
+                tt = {'real': 'double', 'seq': 'seq<double>', 'string': 'str'}.get(ct, ct)
                 st.env['$' + cn] = self.fresh_val(tt, 'cap.' + cn, st)
                 self.vartypes['$' + cn] = tt
             for gt, gn in fs.ghosts:
